@@ -25,6 +25,12 @@ mod fe_itest {
 mod fe_golang {
     include!(concat!(env!("OUT_DIR"), "/fe_golang.rs"));
 }
+mod fe_random {
+    include!(concat!(env!("OUT_DIR"), "/fe_random.rs"));
+}
+mod fe_unittests {
+    include!(concat!(env!("OUT_DIR"), "/fe_unittests.rs"));
+}
 
 // ---------------------------------------------------------------- allocator
 struct Counting;
@@ -993,6 +999,8 @@ fn run_case(line: &str) -> String {
                     "fuzz" => fe_fuzz::verif_entry::<F>(&bytes),
                     "itest" => fe_itest::verif_entry::<F>(&bytes),
                     "golang" => fe_golang::verif_entry::<F>(&bytes),
+                    "random" => fe_random::verif_entry::<F>(&bytes),
+                    "unittests" => fe_unittests::verif_entry::<F>(&bytes),
                     _ => panic!("bad fe variant"),
                 };
                 format!("v {:x} rest {}", v.to_bits(), rest.len())
